@@ -604,6 +604,34 @@ def crossPairs (lrInts : List (K × K)) : List (K × K) :=
   (lrInts.map (fun p => ((1 / (1 + 1) : K) * p.1, (1 / (1 + 1) : K) * p.2 + 1 / (1 + 1)))).filter
     (fun p => !(p.1 = (1 / (1 + 1) : K) ∧ p.2 = (1 / (1 + 1) : K)))
 
+/-- the merge of the three blocks with `add_intersection` -/
+def mergePairs (G : GeoConsts K) (blocks : List (K × K)) (acc : List (K × K)) : List (K × K) :=
+  blocks.foldl (fun acc p => addIntersection G p.1 p.2 acc) acc
+
+/-- merging only keeps pairs that were there -/
+theorem mergePairs_mem (G : GeoConsts K) : ∀ (blocks acc : List (K × K)),
+    ∀ p ∈ mergePairs G blocks acc, p ∈ acc ∨ p ∈ blocks := by
+  intro blocks
+  induction blocks with
+  | nil => intro acc p hp; exact Or.inl hp
+  | cons b rest ih =>
+    intro acc p hp
+    have hp' : p ∈ mergePairs G rest (addIntersection G b.1 b.2 acc) := hp
+    rcases ih _ p hp' with h | h
+    · rcases addIntersection_mem G b.1 b.2 acc p h with h' | h'
+      · exact Or.inl h'
+      · exact Or.inr (by rw [h']; exact List.mem_cons_self)
+    · exact Or.inr (List.mem_cons_of_mem _ h)
+
+/-- merging keeps the accumulator as a prefix (nothing is removed or reordered) -/
+theorem mergePairs_prefix (G : GeoConsts K) : ∀ (blocks acc : List (K × K)), acc <+: mergePairs G blocks acc := by
+  intro blocks
+  induction blocks with
+  | nil => intro acc; exact List.prefix_refl _
+  | cons b rest ih =>
+    intro acc
+    exact (addIntersection_prefix G b.1 b.2 acc).trans (ih _)
+
 theorem selfIntersections_zero (P : Prims K) (G : GeoConsts K) (nodes : List (List K)) :
     selfIntersections P G 0 nodes = .error .recursion := rfl
 
@@ -618,9 +646,9 @@ theorem selfIntersections_succ (P : Prims K) (G : GeoConsts K) (fuel : ℕ) (nod
           match allIntersections P G (P.subdivide nodes).1 (P.subdivide nodes).2 with
           | .error e => .error e
           | .ok (lrInts, _) =>
-            .ok (leftSelf.map (fun p => ((1 / (1 + 1) : K) * p.1, (1 / (1 + 1) : K) * p.2))
+            .ok (mergePairs G (leftSelf.map (fun p => ((1 / (1 + 1) : K) * p.1, (1 / (1 + 1) : K) * p.2))
               ++ crossPairs lrInts
-              ++ rightSelf.map (fun p => ((1 / (1 + 1) : K) + 1 / (1 + 1) * p.1, (1 / (1 + 1) : K) + 1 / (1 + 1) * p.2))) := rfl
+              ++ rightSelf.map (fun p => ((1 / (1 + 1) : K) + 1 / (1 + 1) * p.1, (1 / (1 + 1) : K) + 1 / (1 + 1) * p.2))) []) := rfl
 
 theorem turningBelowPi_small (nodes : List (List K)) (h : ncols nodes < 3) : turningBelowPi nodes = true := by
   unfold turningBelowPi; rw [if_pos h]
@@ -680,6 +708,7 @@ theorem selfIntersections_strict (P : Prims K) (G : GeoConsts K) (hA : AllOK P G
           have ihr := ih _ _ hr
           cases h
           intro p hp
+          have hp := (mergePairs_mem G _ _ p hp).resolve_left (by simp)
           simp only [List.mem_append, List.mem_map] at hp
           rcases hp with (⟨q, hq, rfl⟩ | hp) | ⟨q, hq, rfl⟩
           · obtain ⟨h0, h1, h2⟩ := ihl q hq
